@@ -27,7 +27,8 @@ def check(ctx):
                    "epoch, its own da constants) bound to the right parameters; start_epoch "
                    "= da_init, end_epoch = da_finalize, unconditionally.")
     ctx.rule("R4", "standard transitions never write the kernel state nor pass it to a "
-                   "function that mutates it, and return it unchanged.")
+                   "function that mutates it, and return it unchanged; the adaptive "
+                   "transition is dispatched in FAST_/SLOW_ADAPTATION epochs only.")
     ctx.trust("sympy.simplify as algebraic normaliser for the extracted terms",
               LIB_FACTS["cond"])
     ctx.undecided("float rounding of exp(log(step size)) at epoch boundaries")
@@ -244,6 +245,9 @@ def check(ctx):
                len(cs) == 1 and cs[0][2] == (SELF,))
     ctx.require_min("kernel-state dataclasses", n_states, 4)
 
+    # ---- R4: the adaptive branch is selected in adaptation epochs only
+    from .c07 import dispatch_obligations
+    dispatch_obligations(ctx, "C11.R4", "C11.R4")
     # ---- R4
     n_std = 0
     for nm, ci in sorted(kernels.items()):
